@@ -148,6 +148,13 @@ def generate(rng, tier, boost):
         if k < 256:
             cases.append((302 if k % 3 else 301, [script, t, idx, ht]))
 
+    # 1b. a transaction with 260 inputs, signed at indices 255..260 (integers above 256 are not interned)
+    t = small_tx(rng, nin=260, nout=3)
+    script = rand_script(rng)
+    for idx in (0, 255, 256, 257, 258, 259, 260):
+        for ht in (1, 2, 3, 0x81, 0x83):
+            cases.append((301, [script, t, idx, ht]))
+            cases.append((302, [script, t, idx, ht]))
     # 2. all 256 hash types for a fixed (tx, script, idx): exhaustive per transaction
     ntx = 48 if big else 2
     for k in range(ntx):
